@@ -279,11 +279,14 @@ Qed.
 Lemma invert_refuted_witness :
   exists i j, interval_make par_a par_b false = Ok i /\ i_invert i = false /\ d_N (i_dur i) = - (2700 * MEG)
            /\ interval_make par_b par_a false = Ok j /\ i_invert j = true /\ d_N (i_dur j) = 2700 * MEG.
-Proof. eexists. eexists. vm_compute. repeat split; reflexivity. Qed.
+Proof.
+  eexists. eexists. split; [vm_compute; reflexivity|]. split; [vm_compute; reflexivity|]. split; [vm_compute; reflexivity|].
+  split; [vm_compute; reflexivity|]. split; vm_compute; reflexivity.
+Qed.
 
 Lemma abs_refuted_interval :
   exists i, interval_make par_a par_b true = Ok i /\ d_N (i_dur i) = - (2700 * MEG) /\ dur_in_minutes (i_dur i) = Ok (-45).
-Proof. eexists. vm_compute. repeat split; reflexivity. Qed.
+Proof. eexists. split; [vm_compute; reflexivity|]. split; vm_compute; reflexivity. Qed.
 
 (* ------------------------------------------------------------------ 3b. native operands of __sub__ / __rsub__ *)
 From PV Require Import Proofs.C02Facts.
@@ -299,13 +302,13 @@ Proof.
   intros o o' Hn Hd Ha Hc Hfx Hsk. unfold normalise_operand, instance_ep. rewrite Hn, Hd, Ha. cbn [negb].
   unfold create. destruct (e_fixed o) eqn:Efx.
   - destruct (Hfx eq_refl) as [off Hz]. unfold convert_naive_fixed. cbn [bind]. intros H. inversion H. subst o'. clear H.
-    unfold ep_inst, aware. cbn [e_native e_dt e_obj e_zone e_W e_fold]. rewrite Ha. unfold aware in Ha.
+    unfold aware in Ha. unfold ep_inst, aware. cbn [e_native e_dt e_obj e_zone e_W e_fold]. rewrite Ha.
     assert (E : negb (e_canon o =? 0) = true) by lia. rewrite E.
     repeat split; auto. rewrite Hz. unfold inst. rewrite !fixed_zone_local. reflexivity.
   - unfold convert_naive. unfold wall_skipped in Hsk.
     destruct (off_local (e_zone o) (sec (e_W o)) true >? off_local (e_zone o) (sec (e_W o)) false) eqn:G; [lia|].
     rewrite andb_false_r. cbn [bind]. intros H. inversion H. subst o'. clear H.
-    unfold ep_inst, aware. cbn [e_native e_dt e_obj e_zone e_W e_fold]. unfold aware in Ha. rewrite Ha.
+    unfold aware in Ha. unfold ep_inst, aware. cbn [e_native e_dt e_obj e_zone e_W e_fold]. rewrite Ha.
     assert (E : negb (e_canon o =? 0) = true) by lia. rewrite E. repeat split; auto.
 Qed.
 
@@ -331,6 +334,11 @@ Lemma sub_pendulum : forall self o, e_native o = false ->
   dt_sub self o = interval_make o self false /\ dt_rsub self o = interval_make self o false.
 Proof. intros self o H. unfold dt_sub, dt_rsub, dt_diff, normalise_operand. rewrite H. split; reflexivity. Qed.
 
+Lemma ep_inst_aware : forall o, aware o = true -> ep_inst o = inst (e_zone o) (e_W o) (e_fold o).
+Proof. intros o H. unfold ep_inst. rewrite H. reflexivity. Qed.
+Lemma ep_inst_mk : forall d n c c2 fx z W f, c <> 0 -> ep_inst (mkep d n c c2 fx z W f) = inst z W f.
+Proof. intros. unfold ep_inst, aware. cbn [e_obj e_zone e_W e_fold]. assert (E : negb (c =? 0) = true) by lia. rewrite E. reflexivity. Qed.
+
 (* a stdlib value on a SKIPPED wall time is first moved by the gap (C02): its instant becomes wall - utcoffset(other fold),
    i.e. it differs from CPython's reading of the same value by exactly the length of the gap *)
 Lemma normalise_native_skipped : forall o o', e_native o = true -> e_dt o = true -> aware o = true -> e_canon o <> 0 ->
@@ -341,23 +349,25 @@ Lemma normalise_native_skipped : forall o o', e_native o = true -> e_dt o = true
 Proof.
   intros o o' Hn Hd Ha Hc Hfx Hwf Hsk. unfold normalise_operand, instance_ep. rewrite Hn, Hd, Ha, Hfx. cbn [negb].
   unfold create. intros H. apply bind_ok' in H. destruct H as [[W' f'] [Hcv H]]. inversion H. subst o'. clear H.
-  destruct (create_skipped (e_zone o) (e_W o) Hwf Hsk) as (Hg & Hup & Hdown & Oup & Odown & Sup & Sdown).
+  destruct (create_skipped (e_zone o) (e_W o) true Hwf Hsk) as (Hg & Hup & Hdown & Oup & Odown & Sup & Sdown).
   cbv zeta in *.
-  unfold ep_inst at 1 3. unfold aware at 1 3. cbn [e_obj e_zone e_W e_fold].
-  assert (E : negb (e_canon o =? 0) = true) by lia. rewrite E.
-  unfold ep_inst. rewrite Ha.
-  unfold convert_naive in Hcv. unfold wall_skipped in Hsk.
-  destruct (off_local (e_zone o) (sec (e_W o)) true >? off_local (e_zone o) (sec (e_W o)) false) eqn:G; [|lia].
+  rewrite (ep_inst_aware o Ha). rewrite ep_inst_mk by exact Hc.
+  unfold wall_skipped in Hsk.
+  set (o0 := off_local (e_zone o) (sec (e_W o)) false) in *.
+  set (o1 := off_local (e_zone o) (sec (e_W o)) true) in *.
+  unfold inst. change (?x / MEG) with (sec x).
   destruct (e_fold o) eqn:Ef; cbn [negb].
-  - destruct (wall_in_range (e_W o + MEG * (off_local (e_zone o) (sec (e_W o)) true - off_local (e_zone o) (sec (e_W o)) false))); [|discriminate].
-    inversion Hcv. subst W' f'. unfold inst. fold (sec (e_W o + MEG * (off_local (e_zone o) (sec (e_W o)) true - off_local (e_zone o) (sec (e_W o)) false))).
-    rewrite Sup, Oup. fold (sec (e_W o)). lia.
-  - destruct (wall_in_range (e_W o + MEG * (off_local (e_zone o) (sec (e_W o)) false - off_local (e_zone o) (sec (e_W o)) true))) eqn:R; [|discriminate].
-    inversion Hcv. subst W' f'. unfold inst.
-    replace (e_W o + MEG * (off_local (e_zone o) (sec (e_W o)) false - off_local (e_zone o) (sec (e_W o)) true))
-      with (e_W o - MEG * (off_local (e_zone o) (sec (e_W o)) true - off_local (e_zone o) (sec (e_W o)) false)) by lia.
-    fold (sec (e_W o - MEG * (off_local (e_zone o) (sec (e_W o)) true - off_local (e_zone o) (sec (e_W o)) false))).
-    rewrite Sdown, Odown. fold (sec (e_W o)). lia.
+  - destruct (wall_in_range (e_W o + MEG * (o1 - o0))) eqn:R.
+    + rewrite (Hup eq_refl) in Hcv. assert (EW : W' = e_W o + MEG * (o1 - o0)) by congruence. assert (Ef' : f' = false) by congruence.
+      subst W' f'. rewrite Sup, Oup. fold o1. lia.
+    + unfold convert_naive in Hcv. fold o0 o1 in Hcv.
+      destruct (o1 >? o0) eqn:G; [|lia]. rewrite R in Hcv. discriminate.
+  - destruct (wall_in_range (e_W o - MEG * (o1 - o0))) eqn:R.
+    + rewrite (Hdown eq_refl) in Hcv. assert (EW : W' = e_W o - MEG * (o1 - o0)) by congruence. assert (Ef' : f' = false) by congruence.
+      subst W' f'. rewrite Sdown, Odown. fold o0. lia.
+    + unfold convert_naive in Hcv. fold o0 o1 in Hcv.
+      destruct (o1 >? o0) eqn:G; [|lia].
+      replace (e_W o + MEG * (o0 - o1)) with (e_W o - MEG * (o1 - o0)) in Hcv by lia. rewrite R in Hcv. discriminate.
 Qed.
 
 (* ------------------------------------------------------------------ 4. the float part *)
